@@ -34,7 +34,7 @@ PROFILES = {
     "misuse": dict(w=dict(construct=25, set_leaf=12, set_compound=5, bind=3, copy=3, drop=3, raw=6, grow=5, misuse=38, restart=0, json=0), force_p=dict(strings=0.9, dyn_items=0.8, urefs=0.6, dyn_struct=0.9)),
     "refs": dict(w=dict(construct=25, set_leaf=20, set_compound=2, bind=25, copy=5, drop=4, raw=4, grow=15, misuse=0, restart=0, json=0), force=dict(refs=True, urefs=True), force_p=dict(ref_chain=0.6)),
     "copies": dict(w=dict(construct=25, set_leaf=22, set_compound=5, bind=8, copy=25, drop=6, raw=4, grow=8, misuse=0, restart=0, json=0, kill=7), force_p=dict(ref_chain=0.4)),
-    "restart": dict(w=dict(construct=25, set_leaf=20, set_compound=5, bind=6, copy=4, drop=3, raw=4, grow=12, misuse=0, restart=25, json=0), force_p=dict(class_arrays=0.8)),
+    "restart": dict(w=dict(construct=25, set_leaf=20, set_compound=5, bind=6, copy=4, drop=3, raw=4, grow=12, misuse=0, restart=25, json=0), force_p=dict(class_arrays=0.8, cold_restart=0.15)),
     "json": dict(w=dict(construct=35, set_leaf=20, set_compound=5, bind=0, copy=3, drop=2, raw=4, grow=5, misuse=0, restart=0, json=26), force=dict(refs=False, urefs=False)),
 }
 
@@ -330,6 +330,7 @@ class GenSource:
         self.sw = spec["switches"]
         self.n = 0
         self.next_id = 0
+        self.cold_done = False
 
     def new_id(self, n=1):
         i = self.next_id
@@ -713,7 +714,12 @@ class GenSource:
             return None
         k = rng.choice([1, 1, 2, 3])
         objs = rng.sample(live, min(k, len(live)))
-        return {"op": "restart", "objs": [o.k for o in objs], "via": [self._via(o) for o in objs], "id": self.new_id(len(objs))}
+        op = {"op": "restart", "objs": [o.k for o in objs], "via": [self._via(o) for o in objs], "id": self.new_id(len(objs))}
+        if self.sw.get("cold_restart") and not self.cold_done and rng.random() < 0.5:
+            # the same pickle is also loaded in a fresh interpreter (at most once per run: ~0.4 s)
+            op["cold"] = True
+            self.cold_done = True
+        return op
 
     def json(self, w):
         live = [o for o in w.live_objs() if _jsonable(w.schema, o.t)]
